@@ -121,7 +121,7 @@ def generate(rng, i, tier):
             opsl.append({"op": "remove", "group": g})
         else:
             opsl.append({"op": "restart"})
-    return {"seed": rng.getrandbits(32), "listdir_salt": rng.choice([None, rng.getrandbits(16)]), "ops": opsl, "clock": rng.choice(["frozen", "frozen", "tick", "jumps"])}
+    return {"seed": rng.getrandbits(32), "listdir_salt": rng.choice([None, rng.getrandbits(16)]), "ops": opsl, "clock": rng.choice(["frozen", "frozen", "tick", "jumps"]), "log": rng.choice(["error"] * 5 + ["debug", "info"])}
 
 
 def reductions(sc):
@@ -145,6 +145,8 @@ def reductions(sc):
         yield with_(sc, listdir_salt=None)
     if sc.get("clock", "frozen") != "frozen":
         yield with_(sc, clock="frozen")
+    if sc.get("log", "error") != "error":
+        yield with_(sc, log="error")
 
 
 def _strip(lst):
@@ -293,7 +295,7 @@ def _disk(out, model, step):
 def execute(sc):
     out = Out()
     seams.reset(sc["seed"], listdir_salt=sc.get("listdir_salt"))
-    with W.World():
+    with W.World(log_level=sc.get("log", "error")):
         cs = ops.new_csvpaths()
         model = {}
         for step, op in enumerate(sc["ops"]):
